@@ -59,7 +59,7 @@ func run(b kit.Batch, r *kit.R) {
 		for _, l := range cfg.Levels {
 			if l.Kind == "wb" {
 				// a filtered flush of several lines in the middle of the stream
-				cfg.WithCtrl, cfg.FlushAt, cfg.FlushLines = true, 40+c.Rng.Intn(p.NumReqs/2), 2+c.Rng.Intn(10)
+				cfg.WithCtrl, cfg.FlushAt, cfg.FlushLines = true, 50+c.Rng.Intn(400), 2+c.Rng.Intn(10) // FlushAt is a cycle number
 				r.Count("assemblies/with-mid-stream-filtered-flush", 1)
 				break
 			}
